@@ -9,7 +9,9 @@ import itertools, warnings, inspect
 from . import core, progs
 from .core import sigtools, signatures
 
-FORMS = ('function', 'method', 'super', 'apply_super')
+FORMS = ('function', 'method', 'super', 'apply_super', 'super_closure')
+# 'super_closure': the class is made by a factory and the method closes over the factory's arguments (free variables that
+# sort before and after `__class__`) besides the implicit `__class__` cell of the argument-less super()
 RECEIVERS = ('plain', 'falsy_len', 'falsy_bool')
 
 
@@ -62,6 +64,20 @@ def build(req):
         L += ind(dsrc(selfp + list(ops), 'wrapper', 'return ' + _call_src('self.inner', n, names, uva, uvk, va, vk)))
         L += ind(dsrc(selfp + list(ops), 'wrapper_plain', 'return None'))
         L += ['inst = C()', 'target = inst.wrapper', 'own = inst.wrapper_plain', 'callee = inst.inner']
+    elif form == 'super_closure':
+        L += ['class Root(object):'] + ind(truthy)
+        L += ind(dsrc(selfp + [core.P('q9', 'pk')], 'wrapper', "return ('root', q9)"))     # a decoy further up the MRO
+        L += ['class Base(Root):']
+        L += ind(dsrc(selfp + list(ips), 'wrapper', _body_record(ips, 'inner')))
+        L += ['def make(Anchor, zeta):']
+        L += ind(['class C(Anchor):'])
+        L += ind(ind(['@specifiers.forwards_to_super(%s)' % decl_args]))
+        L += ind(ind(dsrc(selfp + list(ops), 'wrapper',
+                          'return (isinstance(self, Anchor), zeta) and ' +
+                          _call_src('super().wrapper', n, names, uva, uvk, va, vk))))
+        L += ind(ind(dsrc(selfp + list(ops), 'wrapper_plain', 'return None')))
+        L += ind(['return C'])
+        L += ['C = make(Base, 0)', 'inst = C()', 'target = inst.wrapper', 'own = inst.wrapper_plain', 'callee = super(C, inst).wrapper']
     else:
         L += ['class Base(object):'] + ind(truthy)
         L += ind(dsrc(selfp + list(ips), 'wrapper', _body_record(ips, 'inner')))
@@ -336,3 +352,74 @@ def w(%sa, *args, **kwargs):
 
 
 RT['stacked_decl'] = rt_stacked_decl
+
+
+def rt_emulate_threads(req):
+    """C04 under two threads (deterministic): a function declared with forwards_to_function(inner, emulate=True) and a class
+    whose instances use as_forged; thread A is parked while it computes the signature (the inner callable's __signature__ is a
+    property that waits); thread B then asks inspect.signature / sigtools.signature for the same object and must get the
+    declared signature, not the raw (a, *args, **kwargs) - which accepts calls that raise in inner"""
+    import inspect, threading
+    from sigtools import specifiers
+    _, how_b = req
+    inside, resume = threading.Event(), threading.Event()
+
+    class Slow(object):
+        """a callable whose signature is read through a property: user code that runs inside the computation"""
+        def __call__(self, x, y=2):
+            return ('inner', x, y)
+
+        @property
+        def __signature__(self):
+            if threading.current_thread().name == 'A':
+                inside.set()
+                resume.wait(5)
+            return inspect.Signature([inspect.Parameter('x', inspect.Parameter.POSITIONAL_OR_KEYWORD),
+                                      inspect.Parameter('y', inspect.Parameter.POSITIONAL_OR_KEYWORD, default=2)])
+    inner = Slow()
+
+    @specifiers.forwards_to_function(inner, emulate=True)
+    def wrapper(a, *args, **kwargs):
+        return inner(*args, **kwargs)
+
+    class Inst(object):
+        __signature__ = specifiers.as_forged
+
+        @specifiers.forwards_to_function(inner)
+        def __call__(self, a, *args, **kwargs):
+            return inner(*args, **kwargs)
+    problems = []
+    for label, obj in (('emulate=True function', wrapper), ('as_forged instance', Inst())):
+        inside.clear(); resume.clear()
+        res = {}
+
+        def run(name):
+            try:
+                with warnings.catch_warnings():
+                    warnings.simplefilter('ignore')
+                    fn = inspect.signature if (name == 'A' or how_b == 'inspect') else sigtools.signature
+                    res[name] = str(fn(obj))
+            except Exception as e:  # noqa
+                res[name] = 'raised ' + type(e).__name__
+        ta = threading.Thread(target=run, args=('A',), name='A')
+        ta.start()
+        inside.wait(5)
+        tb = threading.Thread(target=run, args=('B',), name='B')
+        tb.start()
+        tb.join(5)
+        resume.set()
+        ta.join(5)
+        with warnings.catch_warnings():
+            warnings.simplefilter('ignore')
+            alone = str(inspect.signature(obj))
+        for t in 'AB':
+            if res.get(t) != alone:
+                problems.append('declared-concurrent: %s: thread %s got %s from %s while another thread was computing the same '
+                                'signature; alone it gets %s' % (label, t, res.get(t), 'inspect.signature' if (t == 'A' or how_b == 'inspect')
+                                                                 else 'sigtools.signature', alone))
+        if alone != '(a, x, y=2)':
+            problems.append('declared-signature-differs: %s reports %s, declared (a, x, y=2)' % (label, alone))
+    return ('ok', tuple(problems[:2]), 'probed')
+
+
+RT['emulate_threads'] = rt_emulate_threads
